@@ -12,7 +12,8 @@
    the close branch (its task is not sent).  One consumer receives tasks and executes each
    received task once: [TqRecv] (receive), [TqStore] (Do: task.result, task.err = handler(args)),
    [TqDone] (Do: isHandled = true; wg.Done()).  Get1/Get2 = wg.Wait() then read result/err:
-   [tq_get2] is [None] (blocked) while the task's wg is not done.
+   [tq_get2] is [None] (blocked) while the task's wg is not done.  Get2 callers as goroutines
+   (started at any position, parked in wg.Wait(), released by the Done step): [tq_gstep] at the end.
    A handler is modelled by the pair it returns (result id, error id; 0 = nil).  A task is
    identified by (producer, index of the call in the producer's program).  Sending the same
    task object twice through SendTask is not modelled.
@@ -292,3 +293,99 @@ Definition tq_prod_idle (s : tq_state) (i : nat) : bool :=
   | Some p => match tq_ppc_of p with TqPIdle => true | _ => false end
   | None => false
   end.
+
+(* the operation at call index j of producer i's program *)
+Definition tq_op_at (progs : list (list tq_op)) (id : tq_tid) : option tq_op :=
+  nth_error (nth (fst id) progs []) (snd id).
+
+(* what call j of producer i returns to its caller *)
+Definition tq_handle_of (i j : nat) (op : tq_op) : tq_handle :=
+  match op with
+  | TqCallback None => TqHEmpty
+  | TqTask None => TqHNil
+  | _ => TqHTask (i, j)
+  end.
+
+(* ---- Get2 waiter threads.  A waiter is a goroutine that calls Get2 on a handle:
+       task.wg.Wait(); return task.result, task.err
+   [TqGGet h] starts one: wg.Wait() returns at once iff the counter is already 0 (the task's
+   Done step has happened), otherwise the goroutine parks ([tq_w_ret] = None).  The wg.Done()
+   inside the consumer's Done step of a taskCallback releases every waiter parked on THAT
+   task's WaitGroup; a released waiter then reads result and err.  No other step touches a
+   waiter.  Waiters are numbered in the order they start. *)
+Record tq_waiter := { tq_w_on : tq_handle; tq_w_ret : option tq_pair }.
+
+Record tq_gstate := { tq_base : tq_state; tq_waiters : list tq_waiter }.
+
+Inductive tq_gact :=
+| TqGBase (a : tq_act)       (* a step of the queue / producers / consumer *)
+| TqGGet (h : tq_handle).    (* a new goroutine calls Get2 on h *)
+
+Inductive tq_gev :=
+| TqGEBase (e : tq_ev) (released : list (nat * tq_pair))  (* base step; the waiters its wg.Done() released and what their Get2 returns *)
+| TqGERet (w : nat) (p : tq_pair)                         (* Get2 of waiter w returned at once *)
+| TqGEPark (w : nat).                                     (* waiter w parks in wg.Wait() *)
+
+Definition tq_ginit (cap : nat) (progs : list (list tq_op)) : tq_gstate :=
+  {| tq_base := tq_init cap progs; tq_waiters := [] |}.
+
+Definition tq_w_parked_on (w : tq_waiter) (id : tq_tid) : bool :=
+  match tq_w_ret w, tq_w_on w with
+  | None, TqHTask id' => tq_tid_eqb id' id
+  | _, _ => false
+  end.
+
+Definition tq_release (s' : tq_state) (id : tq_tid) (w : tq_waiter) : tq_waiter :=
+  if tq_w_parked_on w id then {| tq_w_on := tq_w_on w; tq_w_ret := tq_get2 s' (tq_w_on w) |} else w.
+
+Fixpoint tq_released_from (n : nat) (old new : list tq_waiter) : list (nat * tq_pair) :=
+  match old, new with
+  | o :: old', w :: new' =>
+      match tq_w_ret o, tq_w_ret w with
+      | None, Some p => (n, p) :: tq_released_from (S n) old' new'
+      | _, _ => tq_released_from (S n) old' new'
+      end
+  | _, _ => []
+  end.
+
+Definition tq_gstep (g : tq_gstate) (a : tq_gact) : tq_gstate * tq_gev :=
+  match a with
+  | TqGBase a =>
+      let '(s', e) := tq_step (tq_base g) a in
+      let ws := match e with
+                | TqEDone t =>
+                    match tq_kind_of t with
+                    | TqKCallback => map (tq_release s' (tq_id t)) (tq_waiters g)
+                    | TqKUser => tq_waiters g
+                    end
+                | _ => tq_waiters g
+                end in
+      ({| tq_base := s'; tq_waiters := ws |}, TqGEBase e (tq_released_from 0 (tq_waiters g) ws))
+  | TqGGet h =>
+      let r := tq_get2 (tq_base g) h in
+      let w := length (tq_waiters g) in
+      ({| tq_base := tq_base g; tq_waiters := tq_waiters g ++ [{| tq_w_on := h; tq_w_ret := r |}] |},
+       match r with Some p => TqGERet w p | None => TqGEPark w end)
+  end.
+
+Fixpoint tq_grun (g : tq_gstate) (gs : list tq_gact) : tq_gstate * list tq_gev :=
+  match gs with
+  | [] => (g, [])
+  | a :: rest =>
+      let '(g1, e) := tq_gstep g a in
+      let '(g2, tr) := tq_grun g1 rest in
+      (g2, e :: tr)
+  end.
+
+Definition tq_gfinal (g : tq_gstate) (gs : list tq_gact) : tq_gstate := fst (tq_grun g gs).
+Definition tq_gtrace (g : tq_gstate) (gs : list tq_gact) : list tq_gev := snd (tq_grun g gs).
+
+(* the queue's own schedule / trace inside a schedule / trace with waiters *)
+Definition tq_gbase_sched (gs : list tq_gact) : list tq_act :=
+  flat_map (fun a => match a with TqGBase b => [b] | TqGGet _ => [] end) gs.
+Definition tq_gbase_trace (tr : list tq_gev) : list tq_ev :=
+  flat_map (fun e => match e with TqGEBase b _ => [b] | _ => [] end) tr.
+
+(* the waiters that returned / were released in a trace, with their pairs *)
+Definition tq_greturns (tr : list tq_gev) : list (nat * tq_pair) :=
+  flat_map (fun e => match e with TqGEBase _ rel => rel | TqGERet w p => [(w, p)] | TqGEPark _ => [] end) tr.
